@@ -147,6 +147,67 @@ CHECKS = {
         "mpmath tanh-sinh quadrature with explicit break points is the reference; tolerances "
         "from scipy quad's own termination criterion and the documented cubic-spline design",
         "DESIGN.md §4 C20"),
+    "C04": (
+        "postcondition monitor on the real EOM.findPlasmaProfile / findPlasmaProfilePoint: "
+        "T30 and T33 recomputed from the analytic dV/dT, the tanh profile and an explicit 4x4 "
+        "Lorentz boost of the out-of-equilibrium tensor; a proxy on scipy inside "
+        "WallGo.equationOfMotion observes which branch (root / minimum / no solution) produced "
+        "each point; far-field limits against the matching values",
+        "Runtime monitoring of ~210 (quick) / ~3100 (thorough) profiles (6000 / 90000 grid "
+        "points) on poly1/poly2/bag1 through the real manager: deflagration, hybrid and "
+        "detonation branches (>= 40 % detonation points), M in {20,30,40}, errTol 1e-3..1e-8, "
+        "zero and small random moments. Held on the executions observed.",
+        "analytic dV/dT of the zoo potentials; P_trace/P_window/P_matching admissibility "
+        "counted; T_out by own tensor boost",
+        "DESIGN.md §4 C04"),
+    "C09": (
+        "reference-model monitor on EOM._intermediatePressureResults(multiplier=0) and "
+        "EOM.wallProfile through the real manager: pressure vs closed-form V(low)-V(high), "
+        "dphi/dz vs 40-digit mpmath derivative of the tanh ansatz; C17's grid invariant "
+        "passively on every _updateGrid",
+        "Runtime monitoring of ~380 (quick) / ~6300 (thorough) wall shapes: bag1 with noisy "
+        "temperature profiles, poly1/poly2 with constant ones, widths within a factor 3, "
+        "|offset| <= 2, M in {40..100}, unit factors 1e-2..1e2, field relabellings. Held on "
+        "the executions observed.",
+        "tolerance follows the measured grid resolution of the narrowest wall "
+        "(max(1e-8, 30 exp(-6 rho)) of the integrand scale)",
+        "DESIGN.md §4 C09"),
+    "C10": (
+        "reference-model + contract monitor on real traced Thermodynamics objects: identities "
+        "among reported p, dp, ddp, e, w, cs2 to ulp level, reported derivatives vs local fits "
+        "of the reported pressure, continuity across TMin/TMax (icontract postcondition on "
+        "setExtrapolate), closed-form -V at the analytic minimum inside the range",
+        "Runtime monitoring of 54 (quick) / 681 (thorough) traced equations of state "
+        "(30k / 1.2M temperature evaluations from 0.05 TMin to 20 TMax, both phases, direct "
+        "and manager routes, unit factors 0.01..94). Held on the executions observed.",
+        "closed-form EOS of the zoo potentials; phases whose table left its branch are counted "
+        "as inadmissible (C11's subject)",
+        "DESIGN.md §4 C10"),
+    "C11": (
+        "postcondition monitor on FreeEnergy.tracePhase (table rows vs closed-form branch, "
+        "analytic Hessian, flags and advertised range) with recording wrappers on "
+        "findLocalMinimum and on scipy RK45 (every accepted step), interpolation probes, "
+        "findCriticalTemperature vs closed form",
+        "Runtime monitoring of 124 (quick) / 2900 (thorough) traces on poly1/poly2 over unit "
+        "factors 1e-2..1e2, ranges inside / past one / past both ends of the existence "
+        "interval, dT 1e-3..0.3 of it, rTol 1e-4..1e-8, paranoid on/off, field relabellings. "
+        "Held on the executions observed.",
+        "closed-form branches and spinodals; flag/range behaviour at soft ends (pitchforks) "
+        "is recorded, not judged",
+        "DESIGN.md §4 C11"),
+    "C18": (
+        "model-based monitor: random operation sequences on the real InterpolatableFunction "
+        "(and JbIntegral, JfIntegral, FreeEnergy) checked after every operation against an "
+        "executable reference model (shape, per-element value category, post-state), "
+        "post-call invariant wrappers on nine class methods, NaN-poisoned np.empty inside the "
+        "module to expose unassigned entries, history-independence and file round-trip "
+        "metamorphic checks",
+        "Runtime monitoring of 2128 (quick) / 26200 (thorough) operation sequences covering "
+        "all 16 mode pairs x 4 input shapes x 3 operations, return dimensions 1..4, adaptive "
+        "on/off. Held on the executions observed.",
+        "spline-accuracy clause judged with Hall-Meyer bounds times calibrated safety "
+        "factors; ~4 % of entries judged for shape/finiteness only",
+        "DESIGN.md §4 C18"),
 }
 
 ALL = [f"C{i:02d}" for i in range(1, 21)]
